@@ -2,6 +2,7 @@
 import re
 import vlib
 import qcorr
+from props import c08
 import gens
 import unitlib
 from props.c13 import fact_phrases
@@ -117,6 +118,13 @@ def run(rng, tier, model_ok):
         queries.append(("1 m^%d" % pw, False))
         queries.append(("3 s^-%d" % pw, True))
         queries.append(("2 km^%d/s^%d" % (pw, pw + 1), False))
+    # magnitudes on both sides of every threshold at which the decimal rendering changes form, with both signs, bare and with a unit
+    for k in list(range(-16, 17)) + [20, 30, -20, -30]:
+        for mant in ("1", "2.5", "9.99999999999999"):
+            mag = "%se%d" % (mant, k)
+            for txt in (mag, "0 - " + mag, "(1 - 2) * " + mag, mag + " m", "(0 - " + mag + ") s", "1 / (0 - %s)" % mag):
+                queries.append((txt, False))
+            queries.append(("0 - " + mag, True))
     queries.append(("2 m^5 * 3 m^5", False))
     queries.append(("(1 m^7)^3", True))
     qs = [q for q, _ in queries]
@@ -150,6 +158,14 @@ def run(rng, tier, model_ok):
             got_c, want_c = got, want
         if got_c != want_c:
             failures.append({"input": q, "exact": ex, "why": "printed %s, the library results render as %s" % (got[:4], want[:4])})
+        # the number printed in the default mode reads back, independently of the library's Display, as the value cut off toward zero
+        # at the last printed digit, with its sign
+        if not ex:
+            for it, r in zip(got, rep["results"]):
+                if it[0] == "line" and "ok" in r:
+                    why = c08.check(int(r["ok"][0]), int(r["ok"][1]), spec[0], spec[1], re.match(r"-?[\d.]*…?(?:e-?\d+)?", it[1]).group(0))
+                    if why:
+                        failures.append({"input": q, "exact": ex, "why": "the printed line %r is not the value %s/%s: %s" % (it[1], r["ok"][0], r["ok"][1], why)})
         # the unit powers printed (superscript digits) are the powers of the unit, read independently of the library's Display
         for it, r in zip(got, rep["results"]):
             if it[0] == "line" and "ok" in r:
